@@ -25,6 +25,7 @@ for d in sorted(glob.glob(os.path.join(HERE, 'seeded', 'C*-[0-9]*'))):
         print(rows[-1], flush=True)
     finally:
         shutil.rmtree(tmp, ignore_errors=True)
+        sys.path.insert(0, os.path.join(HERE, 'tools')); import treecache; treecache.cleanup(tmp)   # per-tree build dirs of the scratch copy
 rp = os.path.join(HERE, 'seeded', 'RESULTS.json')
 old = {r['change']: r for r in (json.load(open(rp)) if os.path.exists(rp) else [])}
 for a, b, c in rows:
